@@ -179,9 +179,10 @@ def prop(spec, rec):
             labels.add("json")
             with warnings.catch_warnings():
                 warnings.simplefilter("ignore")
-                js = sim.to_json()
-                s2 = Simulator.from_json(js)
+                # the checkpoint goes through the returned string, a file or an open buffer
+                s2, js = sc.json_roundtrip(sim, Simulator, spec.get("json_via", "string"))
                 s3 = Simulator.from_json(js)
+            labels.add("json_via_" + spec.get("json_via", "string"))
             # complete state: dumping the loaded object gives the same object graph again
             with warnings.catch_warnings():
                 warnings.simplefilter("ignore")
@@ -242,6 +243,7 @@ def cases(draw, all_points=False):
         menu = m.invocations + [m.last, m.last]
         pts = draw(st.lists(st.tuples(st.sampled_from(menu), st.sampled_from(["resume", "json", "json"])), min_size=1, max_size=3, unique=True))
         spec["crash_points"] = [list(p) for p in pts]
+    spec["json_via"] = draw(st.sampled_from(["string", "path", "buffer"]))
     return spec
 
 
@@ -253,7 +255,7 @@ def subchecks(tier):
             prop,
             quick=200,
             thorough=6000,
-            floors={"json": 0.245, "crash_at_last_period": 0.05, "crash_with_ev_and_pending_event": 0.272, "schedule_history_on": 0.145, "noise": 0.2},
+            floors={"json": 0.245, "crash_at_last_period": 0.05, "crash_with_ev_and_pending_event": 0.272, "schedule_history_on": 0.145, "json_via_path": 0.1, "noise": 0.2},
         )
     ]
 
